@@ -4,6 +4,7 @@ C09 — Pattern search reports exactly the occurrences, in order.
 import Sqroot.Proofs.Search
 import Sqroot.Proofs.EndToEnd
 import Sqroot.Proofs.FindEndToEnd
+import Sqroot.Proofs.FindEndToEnd12
 namespace Sqroot.Props.C09
 open Sqroot.Model Sqroot.Proofs
 
@@ -107,5 +108,19 @@ theorem findLastN_end_to_end (c : MemoCfg) (m : Memo) (b v : Val3) (chain : List
         = some (.ok (m', ((if pat = [] then (List.range T.length).map (shiftPos (max w.lo 0))
                            else (Spec.occurrences pat T).map (shiftPos (max w.lo 0))).reverse).take n)) :=
   Sqroot.Proofs.findLastN_end_to_end c m b v chain pat n size hb hv hfin hsize hfit
+
+/-- end to end for v1 / v2 (`FindAll` over the pull iterator of any finite view chain, KMP with
+Reset): exactly the occurrences inside the view's window, ascending, as absolute positions -/
+theorem findAll12_end_to_end (c : MemoCfg) (m : Memo) (v : Val12) (chain : List ViewOp) (e : Int)
+    (pat : List Int) (size : Nat)
+    (hv : applyChain12 (.num .memo e) chain = some v)
+    (hsize : Spec.windowSize m.src.len (Spec.winOf (chain.map toSpecOp)) = some size)
+    (hfit : Fits c m.src (Spec.winOf (chain.map toSpecOp)) (size + 2)) :
+    let w := Spec.winOf (chain.map toSpecOp)
+    let T : List Int := (Spec.windowList m.src.len m.src.digit w size).map fun x => (x.2 : Int)
+    ∃ m', findAll12 c m v pat size
+        = .ok (m', if pat = [] then (List.range T.length).map (shiftPos (max w.lo 0))
+                   else (Spec.occurrences pat T).map (shiftPos (max w.lo 0))) :=
+  Sqroot.Proofs.findAll12_end_to_end c m v chain e pat size hv hsize hfit
 
 end Sqroot.Props.C09
